@@ -271,7 +271,12 @@ func (a *arrayObject) setOwnStr(name unistring.String, val Value, throw bool) bo
 				a.val.runtime.typeErrorResult(throw, "length is not writable")
 				return false
 			}
-			return a.setLength(a.val.runtime.toLengthUint32(val), throw)
+			l := a.val.runtime.toLengthUint32(val)
+			if self := a.val.self; self != objectImpl(a) {
+				// the coercion ran user code that switched the storage strategy: a is stale
+				return self.setOwnStr(name, intToValue(int64(l)), throw)
+			}
+			return a.setLengthInt(l, throw)
 		} else {
 			return a.baseObject.setOwnStr(name, val, throw)
 		}
@@ -471,6 +476,13 @@ func (a *arrayObject) defineOwnPropertyStr(name unistring.String, descr Property
 		return a._defineIdxProperty(idx, descr, throw)
 	}
 	if name == "length" {
+		if descr.Value != nil {
+			descr.Value = intToValue(int64(a.val.runtime.toLengthUint32(descr.Value)))
+			if self := a.val.self; self != objectImpl(a) {
+				// the coercion ran user code that switched the storage strategy: a is stale
+				return self.defineOwnPropertyStr(name, descr, throw)
+			}
+		}
 		return a.val.runtime.defineArrayLength(a.getLengthProp(), descr, a.setLength, throw)
 	}
 	return a.baseObject.defineOwnPropertyStr(name, descr, throw)
